@@ -97,7 +97,8 @@ pub fn layers(thorough: bool) -> Report {
     let mut idx = vec![0usize; depth];
     loop {
         let seq: Vec<Step> = idx.iter().map(|&i| steps[i]).collect();
-        if !(seq[0].pre != Pre::Nothing) || thorough { r.evaluations += 1; if seq.iter().any(|s| s.pre != Pre::Nothing) { r.nontrivial += 1; } run(&seq, &mut r); }
+        // the first call finds no layer: pre-step, strategy and migration cannot matter there, only the payload does
+        if seq[0].pre == Pre::Nothing && seq[0].strat == Strat::Keep { r.evaluations += 1; if seq.iter().any(|s| s.pre != Pre::Nothing) { r.nontrivial += 1; } run(&seq, &mut r); }
         let mut p = depth;
         loop { if p == 0 { return r; } p -= 1; idx[p] += 1; if idx[p] < steps.len() { break; } idx[p] = 0; }
     }
